@@ -264,7 +264,9 @@ int main(int argc, char **argv)
     mkdir(g_edir, 0700); mkdir(g_odir, 0700); { char f[330]; snprintf(f, sizeof f, "%s/f", g_odir); write_file(f, "x", 1); }
     snprintf(g_frag_e, sizeof g_frag_e, "%%dirscan(%s)", g_edir); snprintf(g_frag_o, sizeof g_frag_o, "%%dirscan(%s)", g_odir);
     FRAG[NFRAG++] = g_frag_e; FRAG[NFRAG++] = g_frag_o;
-    mc_info("alphabet", "(A) concatenations of <= %d of %d fragments {a, space, ~, \\n, \\\\, \\', lone \\, ', \", $V, ${V}, $(V), $E, $U, ${U}, unterminated ${V, lone $, $VV, %%appname(), %%version(), %%random(w), %%get(k), %%get(k d), %%get(, ), lone %%, (, x} "
+    /* a call nested in another call's arguments whose own argument grows on expansion (past its closing parenthesis), with text after it */
+    FRAG[NFRAG++] = "%random($L)"; FRAG[NFRAG++] = "%get(q %random($L)-t)";
+    mc_info("alphabet", "(A) concatenations of <= %d of %d fragments {a, space, ~, \\n, \\\\, \\', lone \\, ', \", $V, ${V}, $(V), $E, $U, ${U}, unterminated ${V, lone $, $VV, %%appname(), %%version(), %%random(w), %%get(k), %%get(k d), %%get(, ), lone %%, (, x, %%dirscan(empty dir), %%dirscan(one-file dir), %%random($L), %%get(q %%random($L)-t) with L a 40-character value} "
             "x HOME in {/h, empty, unset}; each expanded twice under memory fills 0xA5/0x5A; (B) %%put/%%get histories over %d operations to a fixpoint; (C) %d fragments x 14 distances from the 20479-character limit x {with, without trailing text}",
             N, NFRAG, NVOPS, NLFRAG);
     if (!mc_arg("only", NULL) || !strcmp(mc_arg("only", ""), "a")) {
